@@ -6,14 +6,20 @@ import (
 	zz "github.com/jotaen/klog/klog/zzverif"
 )
 
-// zzBookmarkName: a user-supplied bookmark name - optional '@' prefixes and up to two symbolic bytes.
-func zzBookmarkName(id string) (arg string, normal string) {
-	body := zz.String(id, zz.Choose(3))
+// zzBookmarkName: a user-supplied bookmark name - optional '@' prefixes and up to two
+// symbolic printable bytes (which may themselves be '@').  The normalised name is
+// computed independently of klog: leading '@' characters are the prefix and are
+// dropped, the empty name is `default`.
+func zzBookmarkName(id string, maxLen int) (arg string, normal string) {
+	body := zz.String(id, zz.Choose(maxLen+1))
 	for i := 0; i < len(body); i++ {
-		zz.Assume(zz.And(body[i] > ' ', zz.And(body[i] < 0x7f, body[i] != '@')))
+		zz.Assume(zz.And(body[i] > ' ', body[i] < 0x7f))
 	}
 	prefix := []string{"", "@", "@@"}[zz.Choose(3)]
 	normal = body
+	for len(normal) > 0 && normal[0] == '@' {
+		normal = normal[1:]
+	}
 	if normal == "" {
 		normal = "default"
 	}
@@ -54,12 +60,12 @@ func ZZ_C19_Step() {
 	}
 	k := zz.Choose(zz.ParamOr("k", 2) + 1)
 	for i := 0; i < k; i++ {
-		arg, normal := zzBookmarkName("pre")
+		arg, normal := zzBookmarkName("pre", zz.ParamOr("nb", 2))
 		err := (&BookmarksSet{File: paths[i], Name: arg}).Run(ctx)
 		zz.Assert(err == nil, "set-succeeds")
 		put(normal, paths[i])
 	}
-	arg, normal := zzBookmarkName("op")
+	arg, normal := zzBookmarkName("op", 2)
 	switch zz.Choose(3) {
 	case 0:
 		err := (&BookmarksSet{File: paths[2], Name: arg}).Run(ctx)
@@ -98,12 +104,36 @@ func ZZ_C19_Step() {
 	for i := 0; i+1 < len(all); i++ {
 		zz.Assert(all[i].Name().Value() < all[i+1].Name().Value(), "list-ordered-by-name")
 	}
+	// the listed names are exactly the model's names
+	zz.Assert(len(all) == len(names), "same-number-of-bookmarks")
+	for _, b := range all {
+		found := false
+		for i := range names {
+			if names[i] == b.Name().Value() {
+				found = true
+				zz.Assert(b.Target().Path() == targets[i], "bookmark-target")
+			}
+		}
+		zz.Assert(found, "listed-name-is-in-model")
+	}
 	// resolution of @name arguments
-	q, _ := zzBookmarkName("q")
+	// (the queried name is one of the names used before or a fresh one)
+	var q, qNormal string
+	switch zz.Choose(3) {
+	case 0:
+		q, qNormal = arg, normal
+	case 1:
+		q, qNormal = zzBookmarkName("q", 1)
+	case 2:
+		if len(names) == 0 {
+			zz.Stop()
+		}
+		q, qNormal = names[0], names[0]
+	}
 	file, fErr := ctx.RetrieveTargetFile(app.FileOrBookmarkName("@" + q))
 	want := ""
 	for i := range names {
-		if names[i] == app.NewName("@"+q).Value() {
+		if names[i] == qNormal {
 			want = targets[i]
 		}
 	}
